@@ -54,6 +54,10 @@ CHECKS = {
     technique="exhaustive enumeration of flat traces and of @subqap call histories on pysnark.qaptools.backend (failing tool stubs), files read back by an independent reader",
     text="Flat traces (negative / >= p / > 256-bit values, zero and cancelled coefficients) and all call histories of two sub-circuit functions with bodies from a menu of 7 (incl. compound, constant, multiple results and nested calls) x call sequences up to length 3 (4 thorough) x input classes: every equation holds mod p on the wire/io files, public values are linked, the per-function files written by the backend's own prove() contain every traced equation in its context, same-named calls have equal equation sets and digests (an inconsistently defined function is reported), distinct equation sets have distinct digests over everything explored, every call has a glue whose paired blocks list all arguments and results in order with equal values and equal rnd1. A sample of histories is replayed in fresh interpreters and must give the same verdicts.",
     note="The external qaptools executables are replaced by failing stubs; only what pysnark itself writes is checked."),
+ "C13": dict(cat="model_checking", design="3/C13",
+    technique="exhaustive enumeration of expression trees on each backend's own linear-combination class, linear form compared with the field expression, operands re-inspected after every operation",
+    text="All expression trees of depth <= 2 over leaves zero/one/v1/v2/shared objects with + - neg and scaling by 0,1,-1,2,p-1,p,p+1,-(p+2),2^300 (evaluated on 16 assignments over {0,1,2,p-1}^2), and every unary / leaf-binary operator on the depth-2 trees, on snarkjs, the three zkinterface variants, qaptools' Sig and the recorder (control): each node's linear form mod p equals the field expression and no operand (incl. the shared one()) is altered. get_modulus() equals the tabulated scalar-field order and passes a harness-side Baillie-PSW test; fieldinverse(a)*a = 1 mod p for 30 arguments (negative, unreduced, huge) and raises for a = 0 mod p.",
+    note="libsnark's class is implemented in an absent C++ extension and nobackend is a documented no-op; both are excluded."),
 }
 
 NOT_YET = {}
